@@ -13,6 +13,10 @@ CLAIMED = {
     'C03': ('Bounded model checking of readUnixTime/toAbsTime/comparisons/addX on symbolic integer-millisecond instants: every '
             'execution path for every instant of every year in the range is decided against a closed-form Gregorian oracle.',
             'DESIGN.md#c03', 'years 1970-2099 (quick) / 1970-2400 (thorough); integer milliseconds only', ''),
+    'C02': ('Bounded model checking of the algebraic-expression evaluator (string rewriting, makeRPN, RPN stack machine, __applyOperation dispatch, operator classes) on symbolic '
+            'feature vectors, coordinates and external scalar: the expression *program* is enumerated (exhaustive depth 1 over the full alphabet, depth 2 over a reduced alphabet, seeded random deeper trees; '
+            'two renderings), the data are symbolic, and per path every returned value is proved equal to an independent tree evaluator written on z3 terms; assignment / no-assignment frame conditions checked per path.',
+            'DESIGN.md#c02', 'n = 2..3 observations; values in [-8,8] (0 or |v| >= 1/1024), NaN inputs in a subset; literal exponents 2, 3, 0.5 only', ''),
     'C04': ('Bounded model checking of the sequence operations of Track (sort via argsort, chronological insertion by dichotomy, extract, extractSpanTime, +, % n, % pattern, > n, < n, '
             'removeObsList) with symbolic integer instants (ties allowed) and symbolic integer arguments case-split by the solver: the returned observations are compared with the designated '
             'ones per path, time order proved from the path condition.',
